@@ -565,6 +565,36 @@ func TestVerifC07NameCollision(t *testing.T) {
 			break
 		}
 	}
+	// two suite files with the same suite name of which only one applies to the run mode: whatever the library makes of
+	// it (the pinned tree refuses the pair), it makes the same of it every time - the answer cannot depend on the
+	// order in which Go hands out the suite map
+	for _, modes := range [][3]conformancev1.TestSuite_TestMode{
+		{conformancev1.TestSuite_TEST_MODE_CLIENT, conformancev1.TestSuite_TEST_MODE_SERVER, conformancev1.TestSuite_TEST_MODE_CLIENT},
+		{conformancev1.TestSuite_TEST_MODE_CLIENT, conformancev1.TestSuite_TEST_MODE_SERVER, conformancev1.TestSuite_TEST_MODE_SERVER},
+		{conformancev1.TestSuite_TEST_MODE_UNSPECIFIED, conformancev1.TestSuite_TEST_MODE_SERVER, conformancev1.TestSuite_TEST_MODE_CLIENT},
+	} {
+		var first string
+		var viol error
+		for rep := 0; rep < 120 && viol == nil; rep++ {
+			a, b := mk("Dup", "x"), mk("Dup", "y")
+			a.Mode, b.Mode = modes[0], modes[1]
+			lib, err := newTestCaseLibrary(map[string]*conformancev1.TestSuite{"a.yaml": a, "b.yaml": b}, cfg, modes[2])
+			got := "error"
+			if err == nil {
+				got = fmt.Sprint(vfKeys(lib.testCases))
+			}
+			if rep == 0 {
+				first = got
+			} else if got != first {
+				viol = verifkit.Violf("same-name-unstable", "two suites named \"Dup\" (modes %v and %v), run mode %v: repetition 0 gave %s, repetition %d gave %s", modes[0], modes[1], modes[2], first, rep, got)
+			}
+		}
+		r := map[string]any{"suiteModes": []string{modes[0].String(), modes[1].String()}, "runMode": modes[2].String()}
+		en.Rec.Observe(r, []string{"same-name-different-mode"}, true)
+		if viol != nil && en.Fail(r, viol) {
+			break
+		}
+	}
 	en.Done(true)
 }
 
